@@ -17,3 +17,4 @@ def rules(ctx):
     S.c02_r4_who_frees(ctx)
     S.c06_r6_restore(ctx)
     S.c07_rules(ctx)
+    S.tracker_state_rules(ctx)
